@@ -16,6 +16,19 @@ ALLOC = "function churn(n: number) { const junk: any[] = []; for (let i = 0; i <
 
 # natives that allocate while holding inputs, callbacks that allocate, getters, proxies, generators, promises …
 TEMPLATES = [
+    # objects reachable only through a bound function's arguments, through a Map entry keyed by an object, through a started generator's parameters, through a yield* delegate
+    "function mk() { const f = function (this: any, a: any, b: any, c: any) { return this.t + a.v[0] + b.w + c; }; return f.bind({t: 'T'}, {v: [7]}, {w: 'W'}); } const bf = mk(); churn(120); const r1 = bf('x'); churn(50); r1 + bf('y')",
+    "const m = new Map<any, any>(); (() => { for (let i = 0; i < 5; i++) m.set({id: i}, {val: [i, i], tag: 't' + i}); })(); churn(150); let acc = ''; for (const [k, v] of m) { churn(5); acc += k.id + v.tag + v.val.length; } const ws = new Set<any>(); (() => { for (let i = 0; i < 4; i++) ws.add({n: [i]}); })(); churn(100); for (const e of ws) acc += e.n[0]; acc",
+    "function* gen(a: any, b: any) { churn(30); yield a.x[0]; churn(30); yield b.y.z; churn(30); return a.x.length + b.y.z; } const it = (() => gen({x: [4, 5]}, {y: {z: 6}}))(); churn(100); const r: any[] = []; let st = it.next(); while (!st.done) { r.push(st.value); churn(60); st = it.next(); } r.join() + '/' + st.value",
+    "function mkIter() { let i = 0; const payloads = [{p: 'a'}, {p: 'b'}, {p: 'c'}]; return {[Symbol.iterator]() { return {next() { churn(10); return i < 3 ? {done: false, value: payloads[i++]} : {done: true, value: {ret: 'R'}}; }}; }}; } function* outer(): any { const r = yield* (mkIter() as any); churn(20); return r.ret; } const it = outer(); const got: string[] = []; let st = it.next(); while (!st.done) { churn(80); got.push(st.value.p); st = it.next(); } got.join('') + st.value",
+    # several reactions on one pending promise: the ones still waiting while the first runs (rejection and fulfilment)
+    "let rej: any; const p = new Promise((_, r) => { rej = r; }); const out: string[] = []; p.then(() => out.push('a-ok'), e => { churn(30); out.push('a-err ' + e); }); p.then(() => out.push('b-ok'), e => { churn(30); out.push('b-err ' + e); }); p.then(() => out.push('c-ok'), e => { churn(30); out.push('c-err ' + e); }); churn(300); rej('boom'); churn(20); out.join('|')",
+    "let res: any; const p = new Promise(r => { res = r; }); const out: string[] = []; for (let i = 0; i < 5; i++) { p.then((v: any) => { churn(25); out.push(i + ':' + v.tag); return {i}; }).then((o: any) => out.push('n' + o.i)); } churn(200); res({tag: 'T'}); churn(20); out.join(',')",
+    # natives that build a result from callback results while running more callbacks
+    "const src = [1, 2, 3, 4, 5, 6, 7, 8]; const a = Array.from(src, x => { churn(6); return {v: x, pad: [x, x]}; }); const b = Array.from(new Set(src), x => { churn(6); return {v: x, pad: 'p' + x}; }); const c = Array.from({length: 6}, (_, i) => { churn(6); return {v: i, pad: {i}}; }); const d = Array.from('abcdef', ch => { churn(6); return {ch}; }); churn(40); a.map(o => o.pad[1]).join('') + b.map(o => o.pad).join('') + c.map(o => o.pad.i).join('') + d.map(o => o.ch).join('')",
+    # iteration over a collection the callback empties: the entries being visited are reachable from nothing else
+    "const m = new Map<any, any>(); for (let i = 0; i < 6; i++) m.set({k: i}, {v: i, pad: [i]}); const seen: string[] = []; m.forEach((v: any, k: any) => { if (seen.length === 0) { m.delete(k); } churn(40); seen.push(k.k + ':' + v.pad[0]); }); const s = new Set<any>(); for (let i = 0; i < 6; i++) s.add({k: i, pad: [i]}); s.forEach((v: any) => { if (v.k === 0) s.delete(v); churn(40); seen.push('s' + v.pad[0]); }); seen.join()",
+    "const xs = [5, 3, 8, 1].map(v => ({v, pad: [v]})); const ys = xs.toSorted((a, b) => { churn(8); return a.v - b.v; }); const groups: any = {}; for (const o of ys) { churn(5); (groups[o.v % 2] ||= []).push(o); } const cp = {...groups, extra: Object.entries(groups).map(([k, v]: any) => { churn(5); return {k, n: v.length}; })}; churn(40); JSON.stringify(cp)",
     "const a = [3, 1, 2].map(x => ({v: x, t: [x]})); churn(40); a.sort((p, q) => { churn(3); return p.v - q.v; }); a.map(o => o.v + ':' + o.t.length).join(',')",
     "const o: any = {get g() { churn(10); return {k: [1, 2, 3]}; }}; const r = o.g; churn(30); r.k.length + ':' + o.g.k.join('')",
     "const src = {a: {x: 1}, b: [1, 2], c: 'str'}; const cp = Object.assign({}, src, {d: {y: 2}}); churn(50); JSON.stringify(cp) + Object.keys(cp).length",
